@@ -10,9 +10,29 @@ import (
 	"strconv"
 
 	"cedarverif/internal/core"
+	"cedarverif/internal/otrace"
 )
 
+// otraceCmd validates a directory of hook traces against HandshakeOutcome_Trace
+// (diagnostic tool: verif otrace <dir>).
+func otraceCmd(dir string) {
+	tmp, _ := os.MkdirTemp("", "cedarverif-")
+	defer os.RemoveAll(tmp)
+	c := core.NewCtx("otrace", "quick", 1, "/verif", tmp, "x")
+	groups, err := otrace.LoadDir(dir, false)
+	if err != nil {
+		fmt.Println(err)
+		os.Exit(2)
+	}
+	fmt.Printf("%d groups\n", len(groups))
+	otrace.Validate(c, groups, "dir", nil)
+	os.Exit(c.Finish())
+}
+
 func main() {
+	if len(os.Args) == 3 && os.Args[1] == "otrace" {
+		otraceCmd(os.Args[2])
+	}
 	if len(os.Args) < 3 || os.Args[1] != "check" {
 		fmt.Fprintf(os.Stderr, "usage: verif check <id> [--tier quick|thorough] [--replay file]\nknown ids: %v\n", core.IDs())
 		os.Exit(core.ExitBroken)
